@@ -175,6 +175,18 @@ func (e *Env) secondJudge(typesVerdict map[string]bool) {
 	sort.Strings(ids)
 	failed := map[string]string{}
 	var mu sync.Mutex
+	// a build cache of its own, on disk and removed afterwards: compiling some 10^5 throw-away packages would otherwise leave
+	// tens of GB in the user's cache (the standard library is compiled once into it, about half a minute)
+	privCache := ""
+	for _, base := range []string{"/var/tmp", os.TempDir()} {
+		if d, err := os.MkdirTemp(base, "verif-gocache-"); err == nil {
+			privCache = d
+			break
+		}
+	}
+	if privCache != "" {
+		defer os.RemoveAll(privCache)
+	}
 	const chunk = 400
 	nChunks := (len(ids) + chunk - 1) / chunk
 	tool.Parallel(nChunks, max(1, e.Workers/4), func(ci int) {
@@ -186,6 +198,9 @@ func (e *Env) secondJudge(typesVerdict map[string]bool) {
 		cmd := exec.Command("go", args...)
 		cmd.Dir = e.WS.Root
 		cmd.Env = append(e.Runner.BaseEnv(), "GOFLAGS=")
+		if privCache != "" {
+			cmd.Env = append(cmd.Env, "GOCACHE="+privCache)
+		}
 		out, _ := cmd.CombinedOutput()
 		mu.Lock()
 		for _, ln := range strings.Split(string(out), "\n") {
